@@ -131,6 +131,8 @@ where
     T: FloatT,
 {
     fn update(&mut self, cones: &CompositeCone<T>, settings: &CoreSettings<T>) -> bool {
+        #[cfg(clarabel_verif)]
+        crate::verif::emit(crate::verif::Event::Yield);
         let map = &self.map;
 
         // Set the elements the W^tW blocks in the KKT matrix.
@@ -225,6 +227,8 @@ where
     }
 
     fn regularize_and_refactor(&mut self, settings: &CoreSettings<T>) -> bool {
+        #[cfg(clarabel_verif)]
+        crate::verif::emit(crate::verif::Event::Yield);
         let map = &self.map;
         let KKT = &mut self.KKT;
         let dsigns = &self.dsigns;
@@ -274,6 +278,8 @@ where
     }
 
     fn iterative_refinement(&mut self, settings: &CoreSettings<T>) -> bool {
+        #[cfg(clarabel_verif)]
+        crate::verif::emit(crate::verif::Event::Yield);
         let (x, b) = (&mut self.x, &self.b);
         let (e, dx) = (&mut self.work1, &mut self.work2);
 
